@@ -120,3 +120,137 @@ def c09_activation_history(ctx, nn, o3):
                     ctx.violation("Activation/parity-depends-on-construction-history", {"history_of_functions": hist, "wrapped_in_normalize2mom": w is not wrap[0],
                                   "reported_irreps_out": got, "expected": want}, True)
                     return
+
+
+def c05_dtype_history(ctx, o3):
+    """float64 arguments give float64-accurate, correctly normalized values whatever the process default dtype was when
+    the module was built / whatever ran before (module built under float32, fed float64; .double(); functional form)"""
+    import math
+    old = torch.get_default_dtype()
+    try:
+        g = torch.Generator().manual_seed(int(ctx.seed) + 5)
+        x = torch.randn(12, 3, dtype=torch.float64, generator=g)
+        x = torch.cat([x, torch.eye(3, dtype=torch.float64), -torch.eye(3, dtype=torch.float64)])
+        u = x / x.norm(dim=-1, keepdim=True)
+        for default in (torch.float32, torch.float64):
+            torch.set_default_dtype(default)
+            for ls in [[l] for l in range(12)] + [[3, 1, 1], [0, 1, 2, 3], [11, 10]]:
+                for normalization, sq in [("norm", lambda l: 1.0), ("component", lambda l: 2 * l + 1.0), ("integral", lambda l: (2 * l + 1) / (4 * math.pi))]:
+                    mod = o3.SphericalHarmonics(ls, True, normalization)
+                    forms = [("functional", lambda a: o3.spherical_harmonics(ls, a, True, normalization)), ("module built under " + str(default), mod)]
+                    for name, f in forms + [("module.double()", None)]:
+                        if f is None:
+                            f = mod.double()
+                        y = f(x)
+                        ctx.case(f"sh-dtype ls={ls} {normalization} {name} default={default}", nontrivial=True, sample_every=40)
+                        ok = y.dtype == torch.float64
+                        off, worst = 0, 0.0
+                        for l in ls:
+                            blk = y[:, off:off + 2 * l + 1]
+                            off += 2 * l + 1
+                            worst = max(worst, (blk.pow(2).sum(-1) / sq(l) - 1).abs().max().item())
+                        if not ok or not worst <= 1e-12:
+                            ctx.violation("spherical_harmonics/float64-accuracy-depends-on-default-dtype", {
+                                "ls": ls, "normalization": normalization, "form": name, "default_dtype_at_construction": str(default),
+                                "x": x[:3].tolist(), "result_dtype": str(y.dtype), "max_rel_dev_of_squared_norm": worst, "tolerance": 1e-12}, True)
+                            return
+    finally:
+        torch.set_default_dtype(old)
+
+
+def c14_deferred_prepare(ctx, e3nn, ejit, make_module):
+    """prepare(f) may be created long before f is called, called repeatedly, nested and re-entered; every call must leave the
+    optimisation defaults exactly as it found them (also when the factory raises) and build with codegen disabled"""
+    class Boom(Exception):
+        pass
+
+    saved = e3nn.get_optimization_defaults()
+    try:
+        for at_prepare in (True, False):
+            for at_call in (True, False):
+                for raises in (False, True):
+                    for nested in (False, True):
+                        seen = {}
+                        e3nn.set_optimization_defaults(jit_script_fx=at_prepare)
+
+                        def inner():
+                            seen["inner"] = e3nn.get_optimization_defaults()["jit_script_fx"]
+                            if raises:
+                                raise Boom()
+                            return make_module()
+                        p_inner = ejit.prepare(inner)
+
+                        def outer():
+                            seen["outer_before"] = e3nn.get_optimization_defaults()["jit_script_fx"]
+                            m = p_inner()
+                            seen["outer_after"] = e3nn.get_optimization_defaults()["jit_script_fx"]
+                            return m
+                        f = ejit.prepare(outer) if nested else p_inner
+                        hist = [f"set jit_script_fx={at_prepare}", "p = prepare(factory)" + (" (factory calls another prepared factory)" if nested else ""),
+                                f"set jit_script_fx={at_call}"]
+                        e3nn.set_optimization_defaults(jit_script_fx=at_call)
+                        for rep in range(2):
+                            before = e3nn.get_optimization_defaults()
+                            try:
+                                f()
+                            except Boom:
+                                pass
+                            after = e3nn.get_optimization_defaults()
+                            hist.append("p()" + (" raising" if raises else ""))
+                            ctx.case(f"deferred-prepare prepare@{at_prepare} call@{at_call} raises={raises} nested={nested} rep={rep}", nontrivial=True, sample_every=8)
+                            ctx.traces += 1
+                            bad = None
+                            if after != before:
+                                bad = "defaults not restored to their value before the call"
+                            elif seen.get("inner") is not False:
+                                bad = "factory ran with jit_script_fx still enabled"
+                            elif nested and seen.get("outer_after") is not False and not raises:
+                                bad = "inner prepared factory re-enabled codegen inside the outer one"
+                            if bad:
+                                ctx.violation("prepare/deferred-call-restores-wrong-value", {"history": hist, "what": bad, "defaults_before_call": before,
+                                              "defaults_after_call": after, "seen_inside": seen}, True)
+                                return
+    finally:
+        e3nn.set_optimization_defaults(**saved)
+
+
+def c19_views_after_conversion(ctx, o3):
+    """weight views always alias the module's CURRENT weights: ask for views, convert / replace the parameters, ask again"""
+    def builders():
+        yield "Linear(2x0e+1x1o -> 3x0e+2x1o)", lambda: o3.Linear("2x0e+1x1o", "3x0e+2x1o")
+        yield "Linear with biases", lambda: o3.Linear("2x0e+1x1o", "3x0e+2x1o", biases=True)
+        yield "FullyConnectedTensorProduct", lambda: o3.FullyConnectedTensorProduct("1x0e+1x1o", "1x0e+1x1o", "2x0e+1x1o")
+        yield "TensorProduct mixed weighted/unweighted", lambda: o3.TensorProduct("2x0e+1x1o", "1x0e+1x1o", "2x0e+1x1o", [
+            (0, 0, 0, "uvu", True), (1, 0, 1, "uvu", False), (0, 1, 1, "uvw", True), (1, 1, 0, "uvw", True)])
+    conversions = [("double()", lambda m: m.double()), ("float()", lambda m: m.float()), ("to(float64)", lambda m: m.to(torch.float64)),
+                   ("weight.data replaced", lambda m: (setattr(m.weight, "data", m.weight.data.clone() * 1.0), m)[1]),
+                   ("weight Parameter replaced", lambda m: (setattr(m, "weight", torch.nn.Parameter(m.weight.detach().clone())), m)[1]),
+                   ("deepcopy", lambda m: __import__("copy").deepcopy(m))]
+    for name, build in builders():
+        for cname, conv in conversions:
+            m = build()
+            first = [v for v in m.weight_views()]
+            idx = [i for i, ins in enumerate(m.instructions) if getattr(ins, "has_weight", True) and getattr(ins, "i_in", 0) != -1
+                   and (not hasattr(ins, "i_in1") or ins.has_weight)]
+            _ = [m.weight_view_for_instruction(i) for i in idx]
+            m2 = conv(m)
+            hist = [name, "list(weight_views()); weight_view_for_instruction(i) for every weighted i", cname]
+            for how in ("iteration", "index"):
+                views = list(m2.weight_views()) if how == "iteration" else [m2.weight_view_for_instruction(i) for i in idx]
+                ctx.case(f"views-after {name} {cname} {how}", nontrivial=True, sample_every=6)
+                ctx.traces += 1
+                w = m2.weight
+                lo, hi = w.data_ptr(), w.data_ptr() + w.numel() * w.element_size()
+                for k, v in enumerate(views):
+                    inside = v.dtype == w.dtype and lo <= v.data_ptr() < hi
+                    with torch.no_grad():
+                        snapshot = w.detach().clone()
+                        v.add_(1.0)
+                        changed = int((w.detach() != snapshot).sum())
+                        v.sub_(1.0)
+                    if not inside or changed != v.numel():
+                        ctx.violation("weight_views/stale-after-conversion", {"module": name, "history": hist + [f"views by {how}"], "view": k,
+                                      "view_dtype": str(v.dtype), "weight_dtype": str(w.dtype), "aliases_current_weight": bool(inside),
+                                      "entries_of_current_weight_changed_by_editing_view": changed, "expected": v.numel()}, True)
+                        return
+            del first
